@@ -111,6 +111,7 @@ type Gen struct {
 	MapEmphasis bool           // C02: prefer maps as iteration / filter inputs
 	NoCustom    bool           // only standard tags and filters
 	ArrEmphasis bool           // C03/C04: prefer arrays with mutating-looking filters
+	focus       []filt         // swarm: a few filters used much more often than the rest, with varied arguments
 }
 
 var allFeatures = []string{"trim", "raw", "comment", "tablerow", "cycle", "capture", "case", "custom", "errors", "filters", "assign", "breaks", "unless", "loopmods", "nest"}
@@ -121,6 +122,12 @@ func NewGen(r *Rng, budget int) *Gen {
 	for _, f := range allFeatures {
 		if r.Chance(0.7) {
 			g.feat[f] = true
+		}
+	}
+	if r.Chance(0.35) {
+		all := append(append(append([]filt{}, strFilters...), numFilters...), arrFilters...)
+		for i, n := 0, r.Range(1, 3); i < n; i++ {
+			g.focus = append(g.focus, pick(r, all))
 		}
 	}
 	return g
@@ -260,6 +267,9 @@ func (g *Gen) chain(base string, fs []filt, sc scope, max int) string {
 	}
 	for i, n := 0, g.r.Intn(max+1); i < n; i++ {
 		f := pick(g.r, fs)
+		if len(g.focus) > 0 && g.r.Chance(0.5) {
+			f = pick(g.r, g.focus) // may be ill-typed for this input: an error is a result too
+		}
 		if g.NoCustom && f.name == "hx" {
 			continue
 		}
@@ -596,7 +606,9 @@ func (g *Gen) node(sc *scope, depth int) *TNode {
 }
 
 // errorConstructs are filled into the placeholder nodes above.
-var errObjs = []string{`n | divided_by: 0`, `s | modulo: "x"`, `arr | concat: 5`, `undefined_var_zz`, `s | slice: "q"`}
+var errObjs = []string{`n | divided_by: 0`, `s | modulo: "x"`, `arr | concat: 5`, `undefined_var_zz`, `s | slice: "q"`,
+	// misspelt filter names (undefined filters are reported at render time)
+	`s | upcas`, `s | lcase`, `arr | jon`, `arr | sise`, `s | xstrip`, `s | url_code`, `n | min`, `s | nosuchfilter`, `arr | frist`, `s | appnd: "x"`, `n | tims: 2`}
 var errTags = []string{`include 5`, `include nil`, `cycle "a"`, `assign q = n | divided_by: 0`, `echo s | divided_by: 0`}
 
 func (g *Gen) fixErrors(ns []*TNode) {
